@@ -105,14 +105,28 @@ fn fed_exactly(n: usize, v: &[u8; 1000]) {
     }
     crate::verif_env::fmt_tag::reset();
     let h = hash_immutable(&v[..n]);
-    let (len, buf) = unsafe { (SHA_LEN.v, &SHA_IN.v) };
-    assert!(crate::verif_env::fmt_tag::calls() == 1, "C02.O3d one formatted length prefix per hash");
-    assert!(len == 2 + n, "C02.O3d hash input is the length prefix and the whole value, nothing else");
-    assert!(buf[0] == b'#' && buf[1] == b'1', "C02.O3d hash input starts with the formatted length prefix");
-    if n > 0 {
-        assert!(buf[2] == v[0] && buf[2 + n - 1] == v[n - 1], "C02.O3d hash input ends with the value bytes, untruncated");
+    // native replay (no stubs: real formatter, real SHA-1): compare with SHA-1 over the reference
+    // encoding "<len>:" || value
+    #[cfg(verif_replay)]
+    {
+        let mut enc = n.to_string().into_bytes();
+        enc.push(b':');
+        enc.extend_from_slice(&v[..n]);
+        let mut hasher = Sha1::new();
+        hasher.update(&enc);
+        assert!(h == hasher.digest().bytes(), "C02.O3d hash input is the length prefix and the whole value, nothing else");
     }
-    assert!(h[0] == 0 && h[3] == 7, "C02.O3d the digest of that input is what is returned");
+    #[cfg(not(verif_replay))]
+    {
+        let (len, buf) = unsafe { (SHA_LEN.v, &SHA_IN.v) };
+        assert!(crate::verif_env::fmt_tag::calls() == 1, "C02.O3d one formatted length prefix per hash");
+        assert!(len == 2 + n, "C02.O3d hash input is the length prefix and the whole value, nothing else");
+        assert!(buf[0] == b'#' && buf[1] == b'1', "C02.O3d hash input starts with the formatted length prefix");
+        if n > 0 {
+            assert!(buf[2] == v[0] && buf[2 + n - 1] == v[n - 1], "C02.O3d hash input ends with the value bytes, untruncated");
+        }
+        assert!(h[0] == 0 && h[3] == 7, "C02.O3d the digest of that input is what is returned");
+    }
 }
 
 //@ ob: C02.O3d
@@ -141,6 +155,7 @@ fn c02_o3d_hash_input_boundaries() {
     fed_exactly(1, &v);
     fed_exactly(999, &v);
     fed_exactly(1000, &v);
+    #[cfg(not(verif_replay))]
     assert!(unsafe { SHA_DIGESTS.v } == 4, "C02.O3d one digest per hash");
     assert!(!crate::verif_env::cut_reached(), "CUT: hasher fed more than 1100 bytes");
     kani::cover!(first != last);
